@@ -16,6 +16,7 @@ want = [
  ("Reshape_proofs.v", ["reshape_spec","squeeze_spec","unsqueeze_spec"]),
  ("TopK_proofs.v", ["topk_list_spec","topk_spec"]),
  ("Pool_proofs.v", ["pool_window_spec","maxpool2d_spec"]),
+ ("Clip_proofs.v", ["clip_val_spec","clip_spec","relu_leaky_spec","variadic_spec"]),
  ("Oracle_proofs.v", ["out_eqb_spec","prop_ok_reflect"]),
 ]
 out, names = [], []
@@ -51,7 +52,7 @@ hdr = '''(* C15 -- Operators conform to ONNX reference semantics.
 From RV Require Import Prelude.
 From Coq Require Import Permutation Sorted.
 From OnnxRef Require Import RefBase OnnxRef ModelC15 RefBase_proofs Bcast_proofs Transpose_proofs Concat_proofs
-  Slice_proofs Gather_proofs Reduce_proofs Misc_proofs Reshape_proofs TopK_proofs Pool_proofs Oracle_proofs.
+  Slice_proofs Gather_proofs Reduce_proofs Misc_proofs Reshape_proofs TopK_proofs Pool_proofs Clip_proofs Oracle_proofs.
 Open Scope nat_scope.
 
 '''
